@@ -40,7 +40,25 @@ ASSUMPTIONS = [
     "'about one second' is judged with 0.75 s slack (the only wall-clock oracle; the stall watchdog has a 10x margin)",
 ]
 BUDGET = {"quick": (90, 4), "thorough": (4000, 16)}
-REQUIRED = ["release_never", "release_in_command", "release_at_join", "release_after_timeout", "notice_printed", "garbage_version", "http_error", "connection_error", "exit_nonzero", "subprocess", "verbose_command", "slow_command"]
+REQUIRED = ["release_never", "release_in_command", "release_at_join", "release_after_timeout", "notice_printed", "garbage_version", "http_error", "connection_error", "exit_nonzero", "subprocess", "verbose_command", "slow_command", "request_sequence"]
+
+_CFG = os.path.join(os.environ.get("MHLVERIF_SCRATCH") or ("/dev/shm" if os.path.isdir("/dev/shm") else "/tmp"), "mhlverif.cfg.%d" % os.getpid())
+os.environ["XDG_CONFIG_HOME"] = _CFG  # (click.get_app_dir and friends)
+os.environ["XDG_CACHE_HOME"] = _CFG
+import atexit
+
+atexit.register(lambda: shutil.rmtree(_CFG, ignore_errors=True))
+
+# what each command itself exits with in each world state (independent of any update check)
+EXPECTED_EXIT = {
+    "info": {"*": 0}, "info_nohist": {"*": 30}, "info_sf": {"*": 0}, "info_verbose": {"*": 0},
+    "diff": {"clean": 0, "altered": 0, "missing": 10, "newfile": 21}, "diff_verbose": {"clean": 0, "altered": 0, "missing": 10, "newfile": 21},
+    "create": {"clean": 0, "altered": 11, "missing": 10, "newfile": 0}, "create_v": {"clean": 0, "altered": 11, "missing": 10, "newfile": 0},
+    "create_verbose": {"clean": 0, "altered": 11, "missing": 10, "newfile": 0},
+    "flatten": {"*": 0}, "flatten_verbose": {"*": 0}, "usage_main": {"*": 2}, "missing_arg": {"*": 2}, "usage_debug": {"*": 2},
+    "verify": {"clean": 0, "altered": 11, "missing": 10, "newfile": 21}, "verify_verbose": {"clean": 0, "altered": 11, "missing": 10, "newfile": 21},
+    "verify_dh": {"clean": 0, "altered": 12, "missing": 12, "newfile": 12}, "hash": {"*": 0}, "xsd": {"*": 0},
+}
 
 NOTICE = "Please update to the latest ascmhl version using `pip3 install -U ascmhl`."
 RELEASES = ["start", "in_command", "at_join", "join+0.3", "join+0.9", "join+1.5", "never"]
@@ -61,6 +79,8 @@ _outcomes = st.one_of(
     st.fixed_dictionaries({"kind": st.sampled_from(["no_tag", "json_list", "json_number", "not_json"])}),
     st.fixed_dictionaries({"kind": st.just("http"), "status": st.sampled_from([403, 404, 429, 500, 503])}),
     st.fixed_dictionaries({"kind": st.sampled_from(["ConnectionError", "Timeout", "SSLError", "RequestException", "TooManyRedirects", "OSError", "ValueError"])}),
+    # one behaviour per successive request (a checker that retries meets the next one)
+    st.fixed_dictionaries({"kind": st.just("seq"), "seq": st.lists(st.sampled_from(["Timeout", "ConnectionError", "http503", "hang", "hang", "newer", "late_newer"]), min_size=2, max_size=4)}),
 )
 
 
@@ -79,6 +99,12 @@ def enumerated(tier):
     for tag in ("99.0", "v99.1", "99.0.post1", "99.0a1", "99.0rc1", "99.0b2", "99.0.dev1", "0.0.1", "99.0.0-rc.1", "1!0.0.1", "2026092715300000000012345-g1a2b3c"):
         for rel in ("start", "at_join"):
             yield {"release": rel, "outcome": {"kind": "tag", "tag": tag}, "command": "info", "state": "clean"}
+    for seq in (["Timeout", "hang"], ["Timeout", "Timeout", "hang"], ["Timeout", "late_newer"], ["ConnectionError", "ConnectionError", "ConnectionError", "newer"], ["http503", "hang"]):
+        for rel in ("start", "at_join"):
+            yield {"release": rel, "outcome": {"kind": "seq", "seq": seq}, "command": "info", "state": "clean"}
+    # several fast failures in a row, then ordinary commands (anything the checker remembers between runs shows here)
+    for i in range(5):
+        yield {"release": "start", "outcome": {"kind": "ConnectionError"}, "command": ["info", "verify", "hash", "diff", "create"][i], "state": "clean"}
     for rel in ("never", "join+1.5", "join+0.9", "at_join"):
         for cmd in ("info", "verify", "create"):
             yield {"release": rel, "outcome": {"kind": "tag", "tag": "99.0"}, "command": cmd, "state": "clean", "slow": 1.3}
@@ -119,9 +145,28 @@ _NOTJSON = object()
 def make_stub(outcome, gate):
     import requests
 
+    calls = {"n": 0}
+    forever = threading.Event()
+    gate.hang_events = getattr(gate, "hang_events", []) + [forever]
+
     def get(url, *a, **kw):
         gate.wait()
         k = outcome["kind"]
+        if k == "seq":
+            i = min(calls["n"], len(outcome["seq"]) - 1)
+            calls["n"] += 1
+            step = outcome["seq"][i]
+            if step == "hang":
+                forever.wait(30)
+                raise requests.exceptions.ConnectionError("released at teardown")
+            if step == "late_newer":
+                time.sleep(1.9)
+                return _Resp(200, {"tag_name": "99.0"})
+            if step == "newer":
+                return _Resp(200, {"tag_name": "99.0"})
+            if step == "http503":
+                return _Resp(503, {"message": "unavailable"})
+            raise getattr(requests.exceptions, step)("scripted")
         if k in ("tag", "tag_nonstring"):
             return _Resp(200, {"tag_name": outcome["tag"], "name": "release"})
         if k == "no_tag":
@@ -273,10 +318,17 @@ def invoke(group_mod, group, argv, outcome, release, watchdog=10.0, slow=0):
                 th.join(watchdog)
                 stalled = th.is_alive()
                 gate.set()  # let everything finish
+                for ev in getattr(gate, "hang_events", []):
+                    ev.set()
                 th.join(15)
-                upd.join(5)
+                try:
+                    upd.join(5)
+                except RuntimeError:
+                    pass  # (a checker whose thread was never started)
     finally:
         gate.set()
+        for ev in getattr(gate, "hang_events", []):
+            ev.set()
         threading.excepthook = old_hook
     if "r" not in out:
         return None, "", "", None, watchdog, True, errors
@@ -354,7 +406,10 @@ def run_case(scn, ctx):
         if slow and ref[4] > 1.0:
             ctx.event("slow_command")
         label = "%s %s, release=%s, outcome=%s" % (grp, argv[0], scn["release"], json.dumps(scn["outcome"]))
-        require(ref[3] is None and not ref[5], "reference-run", "reference run misbehaved: %r" % (ref,))
+        require(ref[3] is None and not ref[5], "command-itself", "with an update check that fails at once the command misbehaves: exit %s, exception %r" % (ref[0], ref[3]))
+        exp = EXPECTED_EXIT.get(scn["command"], {})
+        exp = exp.get(scn["state"], exp.get("*"))
+        require(exp is None or ref[0] == exp, "command-itself", "%s %s in state %s exits %s with an update check that fails at once; the command's own exit code is %s\n%s" % (grp, argv[0], scn["state"], ref[0], exp, (ref[1] + ref[2])[-300:]))
         require(not got[5], "stall", "%s: still running after 10 s" % label)
         require(got[3] is None, "exception-escapes", "%s: exception reached the command: %r" % (label, got[3]))
         require(got[0] == ref[0], "exit-code", "%s: exit %s, the command's own exit code is %s" % (label, got[0], ref[0]))
@@ -376,6 +431,8 @@ def run_case(scn, ctx):
         require(got[4] - ref[4] <= 1.75, "delay", "%s: took %.2f s, without update check %.2f s" % (label, got[4], ref[4]))
         ctx.event("release_" + {"join+1.5": "after_timeout", "join+0.3": "during_join", "join+0.9": "during_join"}.get(scn["release"], scn["release"]))
         k = scn["outcome"]["kind"]
+        if k == "seq":
+            ctx.event("request_sequence")
         if k == "tag" and not _parses(scn["outcome"]["tag"]):
             ctx.event("garbage_version")
         if k == "http":
